@@ -16,13 +16,25 @@
 // After every action every OTHER held state still serialises to its snapshot bytes, has its
 // snapshot root, and (locks) a context equal to NewEpochsContext of it.
 //
-// Sensitivity (tools/trymut.py C15 …, all caught in the quick tier):
-//   M1 eth2/beacon/altair/state.go   swap `_statePreviousJustifiedCheckpoint` / `_stateCurrentJustifiedCheckpoint`
-//   M2 eth2/beacon/phase0/validator.go ExitEpoch() reads `_validatorWithdrawableEpoch`
-//   M3 eth2/beacon/phase0/history.go   SetRoot without `% v.VectorLength`
+// Sensitivity (tools/trymut.py C15 <file> <old> <new>; every one CAUGHT in the quick tier, seed 1):
+//   M1 eth2/beacon/altair/state.go     `_statePreviousJustifiedCheckpoint` / `_stateCurrentJustifiedCheckpoint` swapped
+//      -> altair.state.{Previous,Current}JustifiedCheckpoint/wrong-result, Set…/other-field-changed
+//   M2 eth2/beacon/phase0/validator.go ExitEpoch() reads `_validatorWithdrawableEpoch` -> Validator.ExitEpoch/wrong-result
+//   M3 eth2/beacon/phase0/history.go   SetRoot without `% v.VectorLength`               -> BatchRoots.SetRoot/unexpected-error
 //   M4 eth2/beacon/capella/state.go    CopyState returns the same view (`return state, nil`)
-//   M5 eth2/beacon/phase0/balances.go  SetBalance writes index+1
-//   M6 eth2/beacon/deneb/state.go      SetSlot also overwrites genesis_time
+//      -> copies/write-to-copy-visible-in-original, copies/write-to-original-visible-in-copy, capella.state.CopyState/copy-aliases-original
+//   M5 eth2/beacon/phase0/balances.go  SetBalance writes index+1                         -> Balances.SetBalance/other-field-changed
+//   M6 eth2/beacon/deneb/state.go      SetSlot also overwrites genesis_time              -> deneb.state.SetSlot/other-field-changed
+//   M7 eth2/beacon/phase0/randao.go    GetRandomMix reads (epoch+1) % length             -> RandaoMixes.GetRandomMix/wrong-result
+//   M8 eth2/beacon/electra/state.go    SetEarliestExitEpoch writes `_earliestConsolidationEpoch` -> electra.state.SetEarliestExitEpoch/not-written
+//   M9 eth2/beacon/common/header.go    SetStateRoot writes position 2 (parent_root)      -> Header.SetStateRoot/other-field-changed
+//
+// Findings (all fixed in /repo, replays in /verif/replays/regress/C15-F0*): F01 CheckpointView.Root read
+// field 0; F02 SetBalances([]) left a list view that panics when hashed; F03 AddValidator (altair+)
+// appended a one-byte zero to the uint64 inactivity scores and cleared a byte of an existing score.
+// False alarm corrected: a "tiny" preset with VALIDATOR_REGISTRY_LIMIT=16 makes the participation
+// list a single chunk (tree depth 0), where FillZeroes(0) panics inside ztyp — no preset has that
+// shape; the preset now keeps the limit above 32.
 package c15
 
 import (
@@ -31,7 +43,6 @@ import (
 	"encoding/hex"
 	"encoding/json"
 	"fmt"
-	"sort"
 	"strings"
 	"testing"
 	"time"
@@ -160,14 +171,22 @@ func runAccessor(r *report.Run, c *Case) *report.Failure {
 	if strings.HasPrefix(o.note, "skipped") {
 		return nil
 	}
+	if o.readback {
+		r.Class("accessor:set:read-back-through-getter")
+	}
+	sampled := map[string]bool{"get": true, "set": true, "append": true, "op": true}
 	if o.note == "ok" && o.nontrivial {
 		r.NonTrivial("a|" + key)
 		r.Hit("row:" + key)
 		r.Class("accessor-nontrivial")
-		r.Sample("accessor:"+ch.Leaf().Kind, c.summary)
+		if !r.InRegress && sampled[ch.Leaf().Kind] {
+			r.Sample("accessor:"+ch.Leaf().Kind, c.summary)
+		}
 	} else if o.note != "ok" {
 		r.Hit("error-path:" + o.note)
-		r.Sample("accessor:"+o.note, c.summary)
+		if !r.InRegress {
+			r.Sample("accessor:"+o.note, c.summary)
+		}
 	}
 	return nil
 }
@@ -761,6 +780,7 @@ func TestCheck(t *testing.T) {
 		preset string
 		fork   int
 		ch     *Chain
+		slot   int
 	}
 	var tour []triple
 	rows := 0
@@ -770,11 +790,19 @@ func TestCheck(t *testing.T) {
 			r.Mandatory("row:" + zb.ForkNamesX[fork] + ":" + ch.Name())
 			rows++
 			perFork[zb.ForkNamesX[fork]]++
-			for _, p := range []string{"tiny", "minimal"} {
-				tour = append(tour, triple{p, fork, ch})
-			}
 		}
 		r.Mandatory("copies:raw:" + zb.ForkNamesX[fork])
+	}
+	// presets in the outer loop and a rotation per preset, so that every shard gets the same mix of
+	// cheap (tiny) and expensive (minimal) rows
+	for pi, p := range []string{"tiny", "minimal"} {
+		k := 0
+		for fork := 0; fork <= zb.Electra; fork++ {
+			for _, ch := range tab.Chains(fork) {
+				tour = append(tour, triple{p, fork, ch, k + 7*pi})
+				k++
+			}
+		}
 	}
 	r.Mandatory("copies:two-mutations-on-each-side", "copies:sim", "sim:block-while-copies-held", "sim:skip-while-copies-held", "sim:accessor-write-on-copy-of-chain-state",
 		"error-path:oob-error", "error-path:at-limit-error")
@@ -782,12 +810,12 @@ func TestCheck(t *testing.T) {
 	r.S.Extra["table_rows_total"] = rows
 
 	failures := 0
-	nTiny, nMin := 5, 2
+	nTiny, nMin := 30, 10
 	if r.Thorough() {
-		nTiny, nMin = 100, 40
+		nTiny, nMin = 400, 120
 	}
 	for i, tr := range tour {
-		if i%r.S.NShards != r.S.Shard {
+		if tr.slot%r.S.NShards != r.S.Shard {
 			continue
 		}
 		e, err := getEnv(tr.preset, tr.fork)
@@ -817,9 +845,9 @@ func TestCheck(t *testing.T) {
 		for fork := 0; fork <= zb.Electra; fork++ {
 			for pi, p := range []string{"tiny", "minimal"} {
 				e, _ := getEnv(p, fork)
-				n := r.N(40, 800)
+				n := r.N(240, 3200)
 				if p == "minimal" {
-					n = r.N(16, 160)
+					n = r.N(64, 800)
 				}
 				if !r.Search(t, "copies/"+p+"/"+e.forkName(), 100+10*fork+pi, n, func(rt *rapid.T) (any, *report.Failure) {
 					c := genCopiesCase(rt, e)
@@ -834,7 +862,7 @@ func TestCheck(t *testing.T) {
 		}
 	}
 	if failures == 0 {
-		r.Search(t, "copies/sim", 7, r.N(64, 1200), func(rt *rapid.T) (any, *report.Failure) {
+		r.Search(t, "copies/sim", 7, r.N(256, 3000), func(rt *rapid.T) (any, *report.Failure) {
 			c := genSimCase(rt)
 			return c, run(r, c)
 		})
@@ -843,10 +871,4 @@ func TestCheck(t *testing.T) {
 	unc := uncovered(tab, theSeen)
 	seenMu.Unlock()
 	r.S.Extra["uncovered"] = unc
-	names := []string{}
-	for k := range unc {
-		names = append(names, k)
-	}
-	sort.Strings(names)
-	_ = names
 }
